@@ -91,6 +91,164 @@ def gen_jsat(seed, n):
         yield {"k": "jsat", "tf": t, "P": [F3(list(p)) for p in P], "Q": [F3(list(q)) for q in Q]}
 
 
+def gen_jphen(seed, n):
+    """Galilean satellite phenomena: the matrix of perspective distances, its pieces, the yes/no matrix.  Half of the
+    instants are moved (0.01 d steps) to a moment at which some satellite is behind the planet's disk"""
+    from pymeeus.Epoch import Epoch
+    from pymeeus.JupiterMoons import JupiterMoons as J
+    rng = random.Random("jphen/%s" % seed)
+    for i in range(n):
+        t = rng.uniform(2415020.5, 2488070.5)
+        if i % 2:
+            for _ in range(400):
+                M = J.check_phenomena(Epoch(t))
+                if any(0.0 <= M[r][c] <= 1.0 for r in range(4) for c in range(2)):
+                    break
+                t += 0.01
+        e = Epoch(t)
+        ev = {"k": "jphen", "tf": t}
+        try:
+            M = J.check_phenomena(e)
+            ev["M"] = [[fx(float(v)) for v in row] for row in M]
+            ev["occ"] = [fx(float(J.check_occultation(epoch=e, i_sat=s))) for s in (1, 2, 3, 4)]
+            ev["ecl"] = [fx(float(J.check_eclipse(epoch=e, i_sat=s))) for s in (1, 2, 3, 4)]
+            ev["one"] = [[fx(float(v)) for v in J.check_phenomena(e, False, s)] for s in (1, 2, 3, 4)]
+            ev["isp"] = [[int(bool(v)) for v in row] for row in J.is_phenomena(e)]
+            ev["CE"] = [F3([float(v) for v in p]) for p in J.rectangular_positions_jovian_equatorial(e)]
+            ev["CS"] = [F3([float(v) for v in p]) for p in J.rectangular_positions_jovian_equatorial(e, solar=True)]
+            ev["oc"] = "ok"
+        except Exception as ex:
+            z = fx(0)
+            ev.update(M=[[z] * 3] * 4, occ=[z] * 4, ecl=[z] * 4, one=[[z] * 2] * 4, isp=[[0] * 3] * 4, CE=[F3([0.0] * 3)] * 4,
+                      CS=[F3([0.0] * 3)] * 4, oc=type(ex).__name__)
+        yield ev
+
+
+def _oc(ex):
+    return type(ex).__name__
+
+
+def _rot(rng):
+    """a random rotation matrix (from two random unit vectors)"""
+    def unit(v):
+        n = math.sqrt(sum(c * c for c in v))
+        return [c / n for c in v]
+    a = unit([rng.gauss(0, 1) for _ in range(3)])
+    b = [rng.gauss(0, 1) for _ in range(3)]
+    d = sum(x * y for x, y in zip(a, b))
+    b = unit([y - d * x for x, y in zip(a, b)])
+    c = [a[1] * b[2] - a[2] * b[1], a[2] * b[0] - a[0] * b[2], a[0] * b[1] - a[1] * b[0]]
+    return [a, b, c]
+
+
+def gen_misc(seed, n):
+    """helpers no other driver reaches: reduce_dms, set_radians, set_ra, machine_accuracy, ecliptic_equator, straight_line,
+    moon_position_angle_axis, JupiterMoons.calculate_delta, repr round trips"""
+    import itertools
+    from pymeeus.Angle import Angle
+    from pymeeus.Epoch import Epoch
+    from pymeeus import base
+    import pymeeus.Coordinates as C
+    from pymeeus.Moon import Moon
+    from pymeeus.JupiterMoons import JupiterMoons as J
+    from pymeeus.Interpolation import Interpolation
+    from pymeeus.CurveFitting import CurveFitting
+    A = Angle
+    rng = random.Random("misc/%s" % seed)
+    j, dec = base.machine_accuracy()
+    yield {"k": "macc", "j": int(j), "dec": int(dec), "jint": 1 if j == int(j) else 0}
+    for i in range(n):
+        # reduce_dms: any mixture of integral and fractional, positive and negative, overflowing fields
+        q = lambda v: round(v * 64) / 64.0
+        D = rng.choice([q(rng.uniform(-800, 800)), float(rng.randint(-800, 800)), 0.0, 359.0, 360.0])
+        M = rng.choice([q(rng.uniform(-200, 200)), float(rng.randint(0, 130)), 0.0, 59.0, 60.0])
+        S = rng.choice([q(rng.uniform(-4000, 4000)), float(rng.randint(0, 130)), 0.0, 59.984375, 60.0])
+        ev = {"k": "rdms", "in": [D, M, S], "D": fx(abs(D)), "M": fx(abs(M)), "S": fx(abs(S)), "neg": 1 if min(D, M, S) < 0 else 0}
+        try:
+            d, m, s_, sg = Angle.reduce_dms(D, M, S)
+            ev.update(d=fx(float(d)), m=fx(float(m)), s=fx(float(s_)), sg=int(sg), oc="ok")
+        except Exception as ex:
+            ev.update(d=BAD, m=BAD, s=BAD, sg=0, oc=_oc(ex))
+        yield ev
+        # set_radians / set_ra on a long-lived object
+        r = rng.choice([rng.uniform(-50, 50), rng.uniform(-7, 7), math.pi * rng.randint(-6, 6), 0.0])
+        h = rng.choice([q(rng.uniform(-100, 100)), float(rng.randint(-48, 48)), 24.0, 0.0])
+        a = Angle(123.25)
+        a.set_radians(r)
+        v1 = a()
+        a.set_ra(h)
+        v2 = a()
+        yield {"k": "setang", "in": [r, h], "r": fx(r), "rd": fx(math.degrees(r)), "h": fx(h), "v1": fx(v1), "v2": fx(v2)}
+        # ecliptic_equator on the ecliptic
+        lon, eps = rng.uniform(0, 360), rng.uniform(20, 26)
+        try:
+            qq = float(C.ecliptic_equator(A(lon), A(0.0), A(eps)))
+            yield {"k": "ecleq", "in": [lon, eps], "q": fx(qq), "eps": fx(eps), "cl": fx(math.cos(math.radians(lon))), "oc": "ok"}
+        except Exception as ex:
+            yield {"k": "ecleq", "in": [lon, eps], "q": BAD, "eps": fx(eps), "cl": fx(0), "oc": _oc(ex)}
+        # straight_line: three bodies in any order; every other time exactly on one great circle (rotated equator points)
+        R = _rot(rng)
+        lons = sorted(rng.uniform(0, 360) for _ in range(3))
+        if i % 2:
+            lons = [lons[0], lons[0] + rng.uniform(1, 60), lons[0] + rng.uniform(61, 120)]
+        lat3 = [0.0, 0.0, 0.0] if i % 2 == 0 else [0.0, 0.0, 0.0]
+        off = 0.0 if i % 2 == 0 else 0.0
+        pts = []
+        bend = 0.0 if i % 4 < 2 else rng.uniform(0.5, 20.0)           # the middle body lifted off the great circle
+        for kk, lo in enumerate(lons):
+            la = bend if kk == 1 else 0.0
+            v = [math.cos(math.radians(la)) * math.cos(math.radians(lo)), math.cos(math.radians(la)) * math.sin(math.radians(lo)),
+                 math.sin(math.radians(la))]
+            w = [sum(R[r_][c_] * v[r_] for r_ in range(3)) for c_ in range(3)]
+            pts.append((math.degrees(math.atan2(w[1], w[0])) % 360.0, math.degrees(math.asin(max(-1.0, min(1.0, w[2]))))))
+        res = []
+        for perm in itertools.permutations(range(3)):
+            args = []
+            for p_ in perm:
+                args += [A(pts[p_][0]), A(pts[p_][1])]
+            try:
+                psi, om = C.straight_line(*args)
+                res.append(("ok", float(psi), float(om)))
+            except Exception as ex:
+                res.append((_oc(ex), 0.0, 0.0))
+        yield {"k": "sline", "in": [list(p_) for p_ in pts], "bend": fx(bend), "oc": [r_[0] for r_ in res],
+               "psi": [fx(r_[1]) for r_ in res], "om": [fx(r_[2]) for r_ in res],
+               "mid": 1 if sorted(range(3), key=lambda kk: pts[kk][0])[1] == 1 else 0}
+        # position angle of the Moon's axis, today and tomorrow
+        t = rng.uniform(2415020.5, 2488070.5)
+        p0, p1 = float(Moon.moon_position_angle_axis(Epoch(t))), float(Moon.moon_position_angle_axis(Epoch(t + 1.0)))
+        yield {"k": "mpaa", "tf": t, "p0": fx(p0), "p1": fx(p1)}
+        # Earth-Jupiter distance and light time
+        if i % 3 == 0:
+            dl = J.calculate_delta(Epoch(t))
+            yield {"k": "jdelta", "tf": t, "delta": fx(float(dl[0])), "tau": fx(float(dl[1])), "len": len(dl)}
+        # repr round trips
+        av = rng.choice([q(rng.uniform(-360, 360)), rng.uniform(-360, 360), 0.0, 1e-7])
+        ok_a = ok_e = ok_i = ok_c = 0
+        try:
+            ok_a = int(eval(repr(Angle(av)), {"Angle": Angle})() == Angle(av)())
+        except Exception:
+            pass
+        try:
+            ok_e = int(eval(repr(Epoch(t)), {"Epoch": Epoch}).jde() == Epoch(t).jde())
+        except Exception:
+            pass
+        xs, ys = [1.0, 2.5, 4.0], [av, 2.0 * av + 1.0, -av]
+        try:
+            i2 = eval(repr(Interpolation(xs, ys)), {"Interpolation": Interpolation})
+            ok_i = int(i2(2.0) == Interpolation(xs, ys)(2.0))
+        except Exception:
+            pass
+        try:
+            c2 = eval(repr(CurveFitting(xs, ys)), {"CurveFitting": CurveFitting})
+            ok_c = int(c2.linear_fitting() == CurveFitting(xs, ys).linear_fitting())
+        except ZeroDivisionError:
+            ok_c = 1
+        except Exception:
+            pass
+        yield {"k": "reprs", "in": [av, t], "a": ok_a, "e": ok_e, "i": ok_i, "c": ok_c}
+
+
 def gen_physical(seed, n):
     from pymeeus.Epoch import Epoch
     from pymeeus.Sun import Sun
